@@ -25,6 +25,36 @@ type Entry = (usize, usize);
 
 const LABELS: [&str; 4] = ["", "A", "B", "C"];
 
+/// Legal spellings of sample names and population labels; the result must not depend on them.
+#[derive(Clone, Copy, Debug)]
+struct Naming {
+    id: &'static str,
+    names: [&'static str; 5],
+    labels: [&'static str; 4],
+}
+
+const PLAIN: Naming = Naming { id: "plain", names: ["s0", "s1", "s2", "s3", "s4"], labels: LABELS };
+
+const NAMINGS: [Naming; 7] = [
+    PLAIN,
+    // names whose lexicographic, numeric and list orders all differ
+    Naming { id: "numeric-names", names: ["s10", "s9", "s100", "s1", "s2"], labels: ["", "north", "South", "east"] },
+    // labels with blanks that share their first word (legal in a tab-separated samples file and in sample=label)
+    Naming { id: "labels-with-blanks", names: ["s0", "s1", "s2", "s3", "s4"], labels: ["", "East Africa", "East Asia", "East"] },
+    // labels that are prefixes of each other / differ only in case
+    Naming { id: "prefix-and-case-labels", names: ["a", "A", "aa", "Aa", "b"], labels: ["", "pop", "Pop", "pop1"] },
+    // numeric labels in an order different from the ids the tool assigns; a label equal to a sample name
+    Naming { id: "numeric-labels", names: ["s0", "s1", "s2", "s3", "s4"], labels: ["", "2", "0", "s0"] },
+    // sample names with blanks and punctuation (VCF sample columns are tab-separated)
+    Naming { id: "names-with-blanks", names: ["NA 1", "NA 2", "NA 10", "NA", "x.y-z"], labels: ["", "A", "B", "C"] },
+    // non-ASCII names and labels
+    Naming { id: "unicode", names: ["sämple", "样本", "sé", "s_3", "s-4"], labels: ["", "Nord", "Süd", "东"] },
+];
+
+fn naming_by_id(id: &str) -> Naming {
+    NAMINGS.iter().copied().find(|n| n.id == id).unwrap_or(PLAIN)
+}
+
 /// Genotype columns (ALT counts) of up to 5 samples over 6 records; pairwise different.
 const COLS: [[usize; 6]; 5] = [
     [0, 1, 2, 0, 1, 2],
@@ -45,15 +75,19 @@ fn all_lists(s: usize, max_len: usize) -> Vec<Vec<Entry>> {
 }
 
 fn list_str(list: &[Entry]) -> String {
+    list_str_n(list, &PLAIN)
+}
+
+fn list_str_n(list: &[Entry], nm: &Naming) -> String {
     list.iter()
-        .map(|(s, l)| if *l == 0 { format!("s{s}") } else { format!("s{s}={}", LABELS[*l]) })
+        .map(|(s, l)| if *l == 0 { nm.names[*s].to_string() } else { format!("{}={}", nm.names[*s], nm.labels[*l]) })
         .collect::<Vec<_>>()
         .join(",")
 }
 
-fn file_str(list: &[Entry]) -> String {
+fn file_str_n(list: &[Entry], nm: &Naming) -> String {
     list.iter()
-        .map(|(s, l)| if *l == 0 { format!("s{s}\n") } else { format!("s{s}\t{}\n", LABELS[*l]) })
+        .map(|(s, l)| if *l == 0 { format!("{}\n", nm.names[*s]) } else { format!("{}\t{}\n", nm.names[*s], nm.labels[*l]) })
         .collect()
 }
 
@@ -139,10 +173,16 @@ fn list_class(list: &[Entry]) -> String {
 }
 
 fn case_j(list: &[Entry], columns: &[usize]) -> J {
+    case_jn(list, columns, &PLAIN)
+}
+
+fn case_jn(list: &[Entry], columns: &[usize], nm: &Naming) -> J {
     J::obj([
         ("kind", J::s("c09")),
         ("samples", J::s(list_str(list))),
         ("columns", J::usizes(columns)),
+        ("naming", J::s(nm.id)),
+        ("samples_as_spelled", J::s(list_str_n(list, nm))),
     ])
 }
 
@@ -164,8 +204,12 @@ fn eval_lib(list: &[Entry], columns: &[usize]) -> Option<Viol> {
 }
 
 fn vcf_for(columns: &[usize]) -> Vec<u8> {
+    vcf_for_n(columns, &PLAIN)
+}
+
+fn vcf_for_n(columns: &[usize], nm: &Naming) -> Vec<u8> {
     let mut cs = CallSet::new(columns.len());
-    cs.samples = columns.iter().map(|s| format!("s{s}")).collect();
+    cs.samples = columns.iter().map(|s| nm.names[*s].to_string()).collect();
     for rec in 0..6 {
         let gts: Vec<&str> = columns.iter().map(|&s| [Cls::G0, Cls::G1, Cls::G2][COLS[s][rec]].spell(rec + s)).collect();
         cs.push_gts(&gts);
@@ -174,27 +218,65 @@ fn vcf_for(columns: &[usize]) -> Vec<u8> {
 }
 
 fn eval_cli(list: &[Entry], columns: &[usize], scratch: &Scratch) -> Vec<Viol> {
-    let vcf = vcf_for(columns);
+    eval_cli_n(list, columns, &PLAIN, scratch)
+}
+
+fn eval_cli_n(list: &[Entry], columns: &[usize], nm: &Naming, scratch: &Scratch) -> Vec<Viol> {
+    let vcf = vcf_for_n(columns, nm);
     let expect = reference(list);
     let mut v = Vec::new();
-    let a = run_sfs(&["create", "--samples", &list_str(list)], Stdin::Bytes(&vcf), scratch);
+    let spelled = list_str_n(list, nm);
+    let tag = if nm.id == "plain" { String::new() } else { format!("|{}", nm.id) };
+    let a = run_sfs(&["create", "--samples", &spelled], Stdin::Bytes(&vcf), scratch);
     match parse_out(&a) {
         Ok(g) if g == expect => {}
         other => v.push((
-            format!("C09|cli|--samples-wrong|{}", list_class(list)),
-            format!("create --samples {} (columns {columns:?}): {other:?}, expected {:?} {:?}", list_str(list), expect.shape, expect.data),
-            case_j(list, columns),
+            format!("C09|cli|--samples-wrong|{}{tag}", list_class(list)),
+            format!("create --samples '{spelled}' (columns {columns:?}): {other:?}, expected {:?} {:?}", expect.shape, expect.data),
+            case_jn(list, columns, nm),
         )),
     }
-    let path = scratch.file(".samples", file_str(list).as_bytes());
+    let path = scratch.file(".samples", file_str_n(list, nm).as_bytes());
     let b = run_sfs(&["create", "--samples-file", path.to_str().unwrap()], Stdin::Bytes(&vcf), scratch);
     let _ = std::fs::remove_file(path);
     if b.stdout != a.stdout || b.code != a.code {
         v.push((
-            format!("C09|cli|samples-file-differs|{}", list_class(list)),
-            format!("--samples {} gives {:?} but the same content as --samples-file gives {} {:?} {}", list_str(list), a.stdout_str(), b.status_str(), b.stdout_str(), b.stderr_str().trim()),
-            case_j(list, columns),
+            format!("C09|cli|samples-file-differs|{}{tag}", list_class(list)),
+            format!("--samples '{spelled}' gives {:?} but the same content as --samples-file gives {} {:?} {}", a.stdout_str(), b.status_str(), b.stdout_str(), b.stderr_str().trim()),
+            case_jn(list, columns, nm),
         ));
+    }
+    v
+}
+
+/// A list in which one (sample, label) entry is repeated verbatim names the same samples as the
+/// list without the repetition: either the same spectrum, or a diagnosed error (both readings of
+/// "listed samples" are accepted; a longer axis for the repeated sample is not).
+fn eval_cli_repeated(list: &[Entry], dup: usize, at: usize, scratch: &Scratch) -> Vec<Viol> {
+    let columns: Vec<usize> = (0..3).collect();
+    let vcf = vcf_for(&columns);
+    let mut rep = list.to_vec();
+    rep.insert(at, list[dup]);
+    let expect = reference(list);
+    let mut v = Vec::new();
+    let path = scratch.file(".samples", file_str_n(&rep, &PLAIN).as_bytes());
+    let runs = [
+        ("--samples", run_sfs(&["create", "--samples", &list_str(&rep)], Stdin::Bytes(&vcf), scratch)),
+        ("--samples-file", run_sfs(&["create", "--samples-file", path.to_str().unwrap()], Stdin::Bytes(&vcf), scratch)),
+    ];
+    let _ = std::fs::remove_file(path);
+    for (how, o) in runs {
+        let fine = match parse_out(&o) {
+            Ok(g) => g == expect,
+            Err(_) => o.diagnosed_error() && o.stdout.is_empty(),
+        };
+        if !fine {
+            v.push((
+                format!("C09|cli|repeated-entry-changes-result|{how}"),
+                format!("create {how} '{}' (entry {dup} repeated at {at}): {} {:?} {}; expected the result of '{}' = {:?} {:?} (or an error)", list_str(&rep), o.status_str(), o.stdout_str(), o.stderr_str().trim(), list_str(list), expect.shape, expect.data),
+                J::obj([("kind", J::s("c09-rep")), ("samples", J::s(list_str(list))), ("dup", J::u(dup)), ("at", J::u(at))]),
+            ));
+        }
     }
     v
 }
@@ -216,6 +298,25 @@ fn eval_cli_errors(scratch: &Scratch) -> (u64, Vec<Viol>) {
     for absent in ["s9", "s0,s9", "s9=A,s1=B", "s1=A,S0=A", "s0,s1,s2,s3"] {
         n += 1;
         must_fail(&["create", "--samples", absent], "absent-sample", &mut v);
+    }
+    // an absent sample at every position of every list of 1..4 entries over {s0,s1,s2,absent}:
+    // in particular lists with exactly as many entries as the input has sample columns
+    for sel in ordered_lists(4, 1, 4) {
+        if !sel.contains(&3) {
+            continue;
+        }
+        for labelled in [false, true] {
+            let spelled: Vec<String> = sel
+                .iter()
+                .enumerate()
+                .map(|(i, s)| {
+                    let name = if *s == 3 { "s9".to_string() } else { format!("s{s}") };
+                    if labelled { format!("{name}={}", ["A", "B"][i % 2]) } else { name }
+                })
+                .collect();
+            n += 1;
+            must_fail(&["create", "--samples", &spelled.join(",")], &format!("absent-sample|{}-entries-vs-3-columns", sel.len()), &mut v);
+        }
     }
     let empty = scratch.file(".samples", b"");
     n += 1;
@@ -313,6 +414,55 @@ pub fn run(tier: Tier) -> i32 {
         exhaustive: true,
         extra: vec![],
     });
+    // spellings of names and labels
+    let mut nj: Vec<(usize, usize)> = Vec::new();
+    for ni in 1..NAMINGS.len() {
+        for li in 0..lists3.len() {
+            if tier.thorough() || (li + ni) % 3 == 0 {
+                nj.push((ni, li));
+            }
+        }
+    }
+    let perms3 = permutations(3);
+    let res = par_map(nj.len(), |i| {
+        let (ni, li) = nj[i];
+        eval_cli_n(&lists3[li], &perms3[(li + ni) % 6], &NAMINGS[ni], &scratch)
+    });
+    for v in res.into_iter().flatten() {
+        rep.violation(v.0, v.1, v.2);
+    }
+    rep.part(Part {
+        name: "cli: spellings of sample names and labels".into(),
+        evaluations: 2 * nj.len() as u64,
+        nontrivial: 2 * nj.len() as u64,
+        note: format!("{} naming schemes (numeric names in non-lexicographic order, labels with blanks sharing a first word, prefix / case-differing labels, numeric labels, names with blanks, non-ASCII) x {} lists of 3 samples as --samples and --samples-file; the result must be that of the plain spelling", NAMINGS.len() - 1, if tier.thorough() { "all".to_string() } else { "every third of the".to_string() }),
+        exhaustive: true,
+        extra: vec![("namings".into(), J::strs(&NAMINGS.iter().map(|n| n.id).collect::<Vec<_>>()))],
+    });
+    // repeated entries
+    let mut rj: Vec<(usize, usize, usize)> = Vec::new();
+    for (li, l) in lists3.iter().enumerate() {
+        if l.len() > 2 {
+            continue;
+        }
+        for dup in 0..l.len() {
+            for at in dup + 1..=l.len() {
+                rj.push((li, dup, at));
+            }
+        }
+    }
+    let res = par_map(rj.len(), |i| eval_cli_repeated(&lists3[rj[i].0], rj[i].1, rj[i].2, &scratch));
+    for v in res.into_iter().flatten() {
+        rep.violation(v.0, v.1, v.2);
+    }
+    rep.part(Part {
+        name: "cli: lists repeating an entry".into(),
+        evaluations: 2 * rj.len() as u64,
+        nontrivial: 2 * rj.len() as u64,
+        note: "every list of <=2 of 3 samples with one entry repeated verbatim at every later position: same spectrum as without the repetition, or a diagnosed error".into(),
+        exhaustive: true,
+        extra: vec![],
+    });
     let (n, v) = eval_cli_errors(&scratch);
     for (k, w, j) in v {
         rep.violation(k, w, j);
@@ -321,7 +471,7 @@ pub fn run(tier: Tier) -> i32 {
         name: "cli: absent samples, empty list".into(),
         evaluations: n,
         nontrivial: n,
-        note: "absent sample (also case-differing), empty file, missing file => non-zero exit, diagnostic, empty stdout".into(),
+        note: "absent sample (also case-differing; at every position of every list of 1..4 entries, incl. lists as long as the input has columns), empty file, missing file => non-zero exit, diagnostic, empty stdout".into(),
         exhaustive: true,
         extra: vec![],
     });
@@ -330,7 +480,15 @@ pub fn run(tier: Tier) -> i32 {
 }
 
 pub fn replay(case: &J) -> Option<Vec<String>> {
-    if case.get("kind")?.as_str()? != "c09" {
+    let kind = case.get("kind")?.as_str()?.to_string();
+    if kind == "c09-err" {
+        let scratch = Scratch::new("c09r");
+        let args: Vec<String> = case.get("argv")?.as_arr()?.iter().filter_map(|a| a.as_str().map(|s| s.to_string())).collect();
+        let a: Vec<&str> = args.iter().map(|s| s.as_str()).collect();
+        let o = run_sfs(&a, Stdin::Bytes(&vcf_for(&[0, 1, 2])), &scratch);
+        return Some(if o.ok() || !o.stdout.is_empty() || !o.diagnosed_error() { vec![format!("C09|cli|invalid-list-accepted :: {a:?}: {} {:?}", o.status_str(), o.stdout_str())] } else { vec![] });
+    }
+    if kind != "c09" && kind != "c09-rep" {
         return None;
     }
     let list: Vec<Entry> = case
@@ -342,9 +500,14 @@ pub fn replay(case: &J) -> Option<Vec<String>> {
             (s[1..].parse::<usize>().unwrap(), LABELS.iter().position(|x| *x == l).unwrap())
         })
         .collect();
-    let columns = case.get("columns")?.as_usizes()?;
     let scratch = Scratch::new("c09r");
+    if kind == "c09-rep" {
+        let v = eval_cli_repeated(&list, case.get("dup")?.as_i64()? as usize, case.get("at")?.as_i64()? as usize, &scratch);
+        return Some(v.into_iter().map(|(k, w, _)| format!("{k} :: {w}")).collect());
+    }
+    let columns = case.get("columns")?.as_usizes()?;
+    let nm = naming_by_id(case.get("naming").and_then(|n| n.as_str()).unwrap_or("plain"));
     let mut v: Vec<Viol> = eval_lib(&list, &columns).into_iter().collect();
-    v.extend(eval_cli(&list, &columns, &scratch));
+    v.extend(eval_cli_n(&list, &columns, &nm, &scratch));
     Some(v.into_iter().map(|(k, w, _)| format!("{k} :: {w}")).collect())
 }
